@@ -1,11 +1,19 @@
-// Package c07 replays the cases of spec/Proposer.tla through the real proposal selection
+// Package c07 replays the cases and scripts of spec/Proposer.tla through the real proposal selection
 // pipeline (binding A): isaac.NewBaseProposalSelector with
-//   - GetNodesFunc returning the listing of the case (a fresh copy, in the listed order),
+//   - GetNodesFunc answering by block height: the listing of the case (a fresh copy, in the listed order);
+//     in a script the suffrage of that height of the chain as it is at that moment ("not found" above
+//     its top), the suffrage of the point's height in the listed order,
 //   - ProposerSelectFunc = the real BlockBasedProposerSelector.Select, wrapped only to log which
 //     node it returned for which node list,
 //   - a RequestFunc that logs which node is asked and answers with a proposal really signed by
 //     that node (or fails, for the first nfail nodes asked),
 //   - a real ProposalMaker for the local node and a real TempPool on leveldb mem storage.
+//
+// A single case is put to a selector object made for it. A script (history part of the spec) keeps
+// one selector object per model selector for all its selections - as a consensus node does - while
+// block events change the suffrage between heights; every selection of a script is put at the same
+// time to a second selector object made for this one call (a node that has just started: other
+// listing of the same suffrage, same point, same previous block).
 //
 // Model node i is mapped to a real node whose address string has the rank the spec's `order`
 // gives it among the addresses, so address order differs from id order.
@@ -31,6 +39,8 @@ import (
 	"github.com/spikeekips/mitum/util/encoder"
 	jsonenc "github.com/spikeekips/mitum/util/encoder/json"
 	"github.com/spikeekips/mitum/util/valuehash"
+	leveldbOpt "github.com/syndtr/goleveldb/leveldb/opt"
+	leveldbStorage "github.com/syndtr/goleveldb/leveldb/storage"
 
 	"mitumverif/internal/h"
 )
@@ -91,6 +101,7 @@ type result struct {
 	Err      string   `json:"err,omitempty"`
 	Panic    string   `json:"panic,omitempty"`
 	Ms       int64    `json:"ms"`
+	WaitMs   int64    `json:"wait_ms"` // the proposer wait of this call: a call that took longer ran into its deadline
 }
 
 var (
@@ -133,6 +144,21 @@ func hashWithSum(sum int, rng *rand.Rand) util.Hash {
 	rng.Shuffle(len(b), func(i, j int) { b[i], b[j] = b[j], b[i] })
 	return valuehash.NewBytes(b)
 }
+
+// sm64 is a splitmix64 rand.Source64 (math/rand's own source costs ~0.5 ms to seed; one is made per case).
+type sm64 uint64
+
+func (s *sm64) Seed(seed int64) { *s = sm64(seed) }
+func (s *sm64) Uint64() uint64 {
+	*s += 0x9e3779b97f4a7c15
+	z := uint64(*s)
+	z = (z ^ (z >> 30)) * 0xbf58476d1ce4e5b9
+	z = (z ^ (z >> 27)) * 0x94d049bb133111eb
+	return z ^ (z >> 31)
+}
+func (s *sm64) Int63() int64 { return int64(s.Uint64() >> 1) }
+
+func newRng(seed int64) *rand.Rand { s := sm64(seed); return rand.New(&s) }
 
 type world struct {
 	nodes map[int]base.LocalNode // model id -> real node (0 = the outsider)
@@ -187,10 +213,11 @@ func dedupe(xs []int) []int {
 // selector is one real, possibly long-lived, isaac.BaseProposalSelector of one node with its own
 // real TempPool; what its hooks saw during the current call is logged.
 type selector struct {
-	w     *world
-	local int
-	pool  *isaacdatabase.TempPool
-	ps    *isaac.BaseProposalSelector
+	w       *world
+	local   int
+	minwait time.Duration
+	pool    *isaacdatabase.TempPool
+	ps      *isaac.BaseProposalSelector
 
 	mu       sync.Mutex
 	getNodes func(base.Height) ([]int, bool) // what GetNodesFunc answers during the current call (model ids, listed order)
@@ -203,12 +230,48 @@ type selector struct {
 	heights  []int64 // block heights GetNodesFunc was asked for
 }
 
-func newSelector(w *world, localid int, minwait time.Duration) *selector {
-	s := &selector{w: w, local: localid}
-	pool, err := isaacdatabase.NewTempPool(leveldbstorage.NewMemStorage(), encs, enc, 0)
+// Every selector object gets a real TempPool of its own on leveldb mem storage. Opening a leveldb costs
+// ~10 ms of CPU (buffers), and tens of thousands of selector objects are made, so the pools of finished
+// selectors are emptied ((*TempPool).Clean deletes every key) and handed to the next ones.
+var poolFree = make(chan *isaacdatabase.TempPool, 2048)
+
+func getPool() *isaacdatabase.TempPool {
+	select {
+	case p := <-poolFree:
+		return p
+	default:
+	}
+	st, err := leveldbstorage.NewStorage(leveldbStorage.NewMemStorage(), &leveldbOpt.Options{
+		WriteBuffer:            64 << 10,
+		BlockCacheCapacity:     64 << 10,
+		CompactionTableSize:    64 << 10,
+		DisableSeeksCompaction: true,
+	})
 	if err != nil {
 		panic(err)
 	}
+	pool, err := isaacdatabase.NewTempPool(st, encs, enc, 0)
+	if err != nil {
+		panic(err)
+	}
+	return pool
+}
+
+func putPool(p *isaacdatabase.TempPool) {
+	if err := p.Clean(); err != nil {
+		_ = p.Close()
+		return
+	}
+	select {
+	case poolFree <- p:
+	default:
+		_ = p.Close()
+	}
+}
+
+func newSelector(w *world, localid int, minwait time.Duration) *selector {
+	s := &selector{w: w, local: localid, minwait: minwait}
+	pool := getPool()
 	s.pool = pool
 	local := w.nodes[localid]
 	real := isaac.NewBlockBasedProposerSelector()
@@ -289,13 +352,16 @@ func (s *selector) logev(kind, id int) {
 	}
 }
 
-func (s *selector) close() { _ = s.pool.Close() }
+func (s *selector) close() { putPool(s.pool) }
 
 // call puts one selection to the real selector object.
 func (s *selector) call(
 	i int, point base.Point, prev util.Hash, nfail int, wait time.Duration, getNodes func(base.Height) ([]int, bool),
 ) result {
-	res := result{I: i, Winner: -1}
+	res := result{I: i, Winner: -1, WaitMs: wait.Milliseconds()}
+	if mw := s.minwait.Milliseconds(); res.WaitMs < mw {
+		res.WaitMs = mw
+	}
 	start := time.Now()
 	s.mu.Lock()
 	s.getNodes, s.nfail, s.failed = getNodes, nfail, map[int]bool{}
@@ -411,8 +477,8 @@ func runScript(i int, k kase, w *world, rng *rand.Rand) (res sresult) {
 				sr := selres{Ev: ei, TwinLocal: tlocal, TwinListing: tlisting}
 				point := base.RawPoint(e.H, uint64(e.R))
 				prev := hashes[e.H-1]
-				r1 := rand.New(rand.NewSource(rng.Int63()))
-				r2 := rand.New(rand.NewSource(rng.Int63()))
+				r1 := newRng(rng.Int63())
+				r2 := newRng(rng.Int63())
 				var wg sync.WaitGroup
 				wg.Add(2)
 				go func() {
@@ -504,7 +570,7 @@ func run(args []string) error {
 		go func(i int) {
 			defer wg.Done()
 			defer func() { <-sem }()
-			rng := rand.New(rand.NewSource(seed*1000003 + int64(i)))
+			rng := newRng(seed*1000003 + int64(i))
 			if cases[i].Script != nil {
 				results[i] = runScript(i+1, cases[i], worlds[fmt.Sprint(cases[i].Order)], rng)
 			} else {
